@@ -78,7 +78,50 @@ def main():
         if not (0 <= net_pop_fed <= net_pop * (1 + 1e-12)):
             bad("Within01:%s" % form, dict(case=c, got=[float(net_pop), float(net_pop_fed)]))
         rep["calls"] += len(called)
+        # the other aggregation of the code base: Interpreter.sum_many_results_together adds the countries' food series (converted
+        # with each country's own population) and re-expresses the total for the summed population; for the same selection and
+        # fractions it must give the population-weighted mean (capped at 100 % per country when asked to)
+        if len(want_sel) >= 1 and rep["cases"] % 4 == 0:
+            try:
+                sum_many_case(c, want_sel, ratio, bad, form)
+                rep["sum_many"] = rep.get("sum_many", 0) + 1
+            except BaseException as ex:  # noqa
+                bad("SumMany:exception:%s" % form, dict(case=c, exc=repr(ex)[:200]))
     json.dump(rep, open(sys.argv[2], "w"))
+
+
+def sum_many_case(c, sel, ratio, bad, form):
+    import numpy as np
+    from src.food_system.food import Food
+    from src.optimizer.interpret_results import Interpreter
+
+    def pct(v):
+        return Food(np.array([v, v], dtype=float), np.zeros(2), np.zeros(2), "percent people fed each month", "percent people fed each month",
+                    "percent people fed each month")
+
+    res = {}
+    for cc in sel:
+        i = SimpleNamespace()
+        i.include_fat = i.include_protein = False
+        i.time_months_middle = [0.5, 1.5]
+        i.constants = dict(POP=POP[cc], inputs=dict(NUTRITION=dict(KCALS_DAILY=2100, FAT_DAILY=47, PROTEIN_DAILY=51)),
+                           ADD_FISH=True, ADD_CELLULOSIC_SUGAR=False, ADD_METHANE_SCP=False, ADD_GREENHOUSES=False, ADD_SEAWEED=False,
+                           ADD_MILK=True, ADD_MEAT=True, ADD_OUTDOOR_GROWING=True, ADD_STORED_FOOD=True)
+        p = ratio[cc] * 100.0
+        # the country's percent fed split over three foods
+        i.stored_food_to_humans, i.fish, i.meat = pct(p / 2), pct(p / 4), pct(p / 4)
+        for nm in ("cell_sugar", "scp", "greenhouse", "seaweed", "milk", "immediate_outdoor_crops_to_humans", "new_stored_outdoor_crops_to_humans"):
+            setattr(i, nm, pct(0.0))
+        i.percent_people_fed = p
+        res[cc] = i
+    tot = sum(POP[cc] for cc in sel)
+    for cap in (False, True):
+        with contextlib.redirect_stdout(io.StringIO()):
+            g = Interpreter.sum_many_results_together(res, cap)
+        want = sum(POP[cc] * (min(1.0, ratio[cc]) if cap else ratio[cc]) for cc in sel) / tot * 100.0
+        got = np.asarray(g.kcals_fed, dtype=float)
+        if got.shape != (2,) or not np.all(np.abs(got - want) <= 1e-9 * max(1.0, want)):
+            bad("SumManyIsWeightedMean:%s:%s" % ("capped" if cap else "uncapped", form), dict(case=c, got=[float(x) for x in np.atleast_1d(got)], want=want))
 
 
 if __name__ == "__main__":
